@@ -6,7 +6,7 @@ set -u
 SD="$(realpath "$1")"; shift
 WT=$(mktemp -d /tmp/seedwt.XXXXXX); rmdir "$WT"
 git -C /repo worktree add -q "$WT" HEAD || exit 9
-cleanup() { git -C /repo worktree remove --force "$WT" 2>/dev/null; }
+cleanup() { git -C /repo worktree remove --force "$WT" 2>/dev/null; rm -rf "${CW:-/nonexistent}"; }
 trap cleanup EXIT
 cd "$WT"
 TQDM_DISABLE=1 PYTHONPATH="$WT" timeout 300 /venv/bin/python "$SD/demo.py" "$WT" >/tmp/seed_demo0.log 2>&1; echo "demo-without-patch rc=$?"
@@ -14,7 +14,8 @@ git apply "$SD/patch.diff" || { echo "PATCH-DOES-NOT-APPLY"; exit 8; }
 TQDM_DISABLE=1 PYTHONPATH="$WT" timeout 300 /venv/bin/python "$SD/demo.py" "$WT" >/tmp/seed_demo1.log 2>&1; echo "demo-with-patch rc=$?"
 r=$(cd "$WT" && timeout 900 /venv/bin/python -m pytest -q -p no:cacheprovider --timeout=900 2>&1 | tail -1); echo "tests-with-patch: $r"
 git -C "$WT" clean -fdq
+CW=$(mktemp -d /tmp/seedcoq.XXXXXX); cp -a /verif/coq "$CW/coq"; ln -s /verif/translator "$CW/translator"; rm -f "$CW/coq/.build.lock"
 for id in "$@"; do
-  out=$(cd /verif && VERIF_REPO="$WT" ./check "$id" 2>&1 | tail -4)
+  out=$(cd /verif && VERIF_COQ_DIR="$CW/coq" VERIF_REPO="$WT" ./check "$id" 2>&1 | tail -4)
   echo "check $id on patched tree: $(echo "$out" | tr '\n' '|')"
 done
